@@ -2,6 +2,7 @@ import Gv.Model.Compress
 import Gv.Spec.Bag
 import Gv.Spec.Dedup
 import Gv.Proofs.DedupLoop
+import Gv.Gen.KeyFacts
 /-!
 # C13 — de-duplication and site compression lose nothing but redundancy
 -/
@@ -708,5 +709,38 @@ theorem dedup_repeated_names_dropped :
     pairs (deduplicate false { renameWith (fun _ => "a") exBag with policy := IGNORE_NAME }).1 = [("a", [65, 67, 78])] ∧
     (deduplicate false { renameWith (fun _ => "a") exBag with policy := IGNORE_NAME }).2.2 = [["a", "a"], ["a"], ["a", "a"]] := by
   decide
+
+/-! ## the look-up tables are keyed by the content itself (T3 facts regenerated from the source)
+
+The models of `Deduplicate` and `Compress` compare whole sequences / whole column patterns.  That is what the code does
+only as long as its look-up table is keyed by the content (a Go `string` holding every byte): a table keyed by a digest
+(`hash/*`, CRC, `maphash`, a hand-rolled sum) merges different contents that collide, which the correspondence check can
+exhibit only for digests it holds collisions for (`driver/hashpairs.py`: seven 32-bit functions) and never for a 64-bit
+one.  `tools/extract/keyfacts.go` regenerates, for both functions, the key type of every map they make, every call through
+a package, every plain function call / conversion and the text of every look-up key; the theorem below is re-checked
+against what the source says now. -/
+
+/-- calls through packages that cannot digest a key: string surgery, error construction, the radix tree -/
+def allowedPkgCalls : List String :=
+  ["strings.ReplaceAll", "strings.Replace", "strings.ToUpper", "strings.Repeat", "fmt.Errorf", "errors.New", "radix.New"]
+
+/-- builtins and conversions -/
+def allowedPlainCalls : List String :=
+  ["append", "len", "cap", "make", "new", "copy", "delete", "string", "uint8", "byte", "int", "min", "max"]
+
+def keyedByContent (f : Gen.KeyFacts.Fn) : Bool :=
+  f.mapKeyTypes.all (· == "string") && f.pkgCalls.all allowedPkgCalls.contains &&
+    f.plainCalls.all allowedPlainCalls.contains && !f.lookupKeys.isEmpty
+
+/-- **`Deduplicate` and `Compress` key their tables by the content**: every map they make has `string` keys, they call no
+package and no helper that could replace the content by a digest, and they do look a key up. -/
+theorem lookup_tables_keyed_by_content :
+    Gen.KeyFacts.fns.map (·.name) = ["Deduplicate", "Compress"] ∧ Gen.KeyFacts.fns.all keyedByContent = true := by
+  decide +kernel
+
+/-- the predicate does tell the two situations apart: a table keyed by a 32-bit checksum is refused -/
+example : keyedByContent ⟨"align/seqbag.go", "Deduplicate", ["uint32"], ["crc32.ChecksumIEEE"], ["string"], ["index:key"], 1⟩
+    = false := by
+  decide +kernel
 
 end Gv.Props.C13
